@@ -645,7 +645,7 @@ def pre_generic_driver(case, result):
     return any((e["ev"] == "persist" and e.get("entry") == "dask") or e["ev"] == "doptimize" for e in h)
 
 
-F2B_MESSAGES = ("from_graph cannot find output block", "Chunks do not add up")
+F2B_MESSAGES = ("from_graph cannot find output block", "Chunks do not add up", "which no task produces", "Missing dependency")
 
 
 def sole_generic_driver(case, result):
